@@ -41,7 +41,10 @@ PROP = {
             "left to the close, failing statements (duplicate key, NOT NULL, dropped / unknown table), TEXT values of 0.6-36 KiB "
             "(overflow chains), VACUUM before a close; after every open: a transaction-id probe, a duplicate-key insert that must be "
             "rejected, an insert that must be accepted, often a new table. Extra families: > 255 rows in one table; 140 consecutive "
-            "rolled-back transactions (every bit position of the aborted bitmap); thorough: > 8192 transactions with rollbacks at ids "
+            "rolled-back transactions (every bit position of the aborted bitmap); 24 / 240 refused-commit cases (two sessions delete the "
+            "same row or insert the same unique key, the loser also inserts elsewhere, the winner commits, the loser's COMMIT is "
+            "refused, more committed work, close, open, reads and key probes — a transaction refused at commit must stay rolled "
+            "back across the close); thorough: > 8192 transactions with rollbacks at ids "
             "~5, 600, 2600, 5600, 8150, 8200, and a sweep of rollbacks across id 8192. Non-trivial (`nt`) = at least one rolled-back "
             "transaction and one id allocation (row, object or transaction id) before some reopen, and id allocations after it; "
             "distinct = distinct case line. Tags `clean` / `kf:<feature>` split clean region and single known-finding feature.",
@@ -69,7 +72,9 @@ TEXT = {
     "design_ref": "DESIGN.md §5 C09",
     "note": "Holds for the specification model. Known finding with exact attribution: the aborted set in page zero is a bitmap of 8192 "
             "bits, rolled-back transactions with larger ids count as committed after a reopen (the sweep across id 8192 pins the size "
-            "exactly). Seen through this engine, other properties' findings: rolled-back UPDATEs (C03/C04, exact), B+tree dividers "
+            "exactly). Seen through this engine, other properties' findings: rolled-back UPDATEs (C03/C04, exact), the single "
+            "delete-mark slot, one index entry per key and the key comparison at commit (C04/C07, exact; listed so that the "
+            "refused-commit cases shrink to the defect they show), B+tree dividers "
             "aliasing overflow chains (C10, region: big rows; 4 KiB pages with min keys >= 4). Repaired by fix: commits: Drop for "
             "Database left open transactions un-aborted (their rows were committed data after reopen); the tuple version byte "
             "overflowed on the 256th insert into any table.",
